@@ -389,8 +389,10 @@ func (s *Solo) Truth(name string, live *facts.State, real ast.IDataContext) (tru
 				}
 			} else if _, isJSON := live.JSON[k]; isJSON {
 				if val := v.Value(); val.IsValid() && val.CanInterface() {
-					if err := shadow.AddJSON(k, facts.MarshalJSONDoc(val.Interface())); err == nil {
-						continue
+					if doc, ok := marshalDoc(val.Interface()); ok {
+						if err := shadow.AddJSON(k, doc); err == nil {
+							continue
+						}
 					}
 				}
 			} else if val := v.Value(); val.IsValid() && val.CanInterface() {
@@ -414,6 +416,17 @@ func (s *Solo) Truth(name string, live *facts.State, real ast.IDataContext) (tru
 		}
 	}()
 	return s.rules[name].Evaluate(context.Background(), shadow, kb.WorkingMemory)
+}
+
+// marshalDoc renders a JSON tree; a tree that JSON cannot express (a non-finite number) is reported, not
+// panicked about: the caller then shares the node of the data context under test.
+func marshalDoc(tree interface{}) (doc []byte, ok bool) {
+	defer func() {
+		if r := recover(); r != nil {
+			doc, ok = nil, false
+		}
+	}()
+	return facts.MarshalJSONDoc(tree), true
 }
 
 func setOracle(live *facts.State, on bool) func() {
